@@ -1,13 +1,15 @@
 import CTV.Props.C04
-import CTV.Gen.CtWrappers
+import CTV.Model.CtWrappersSpec
 /-!
 # C04: the hand models of the serialization.go wrappers follow the bodies regenerated from the source
 
 `Gen.serializeSCTSignatureInput`, `Gen.serializeSTHSignatureInput`, `Gen.leafHashForLeaf`, `Gen.isPreIssuer` and
 `Gen.merkleTreeLeafFromChain` are the whole bodies of the Go functions, translated statement by statement on every run
 (extract/k_ctwrappers.go): the order of the tests, whether a value or an error is handed back and — for
-`MerkleTreeLeafFromChain` — which certificate of the chain ends up as issuer (`issuerIdx_`) and whether `BuildPrecertTBS` is
-given a pre-issuer (`pre_`).  The theorems say the hand models (`CtWire.serializeSCTSignatureInput`, …, `CtWire.leafFromChain`)
+`MerkleTreeLeafFromChain` — which certificate of the chain is hashed into `issuer_key_hash` (`issuerIdx_`, read off the argument of
+`sha256.Sum256`) and which one `BuildPrecertTBS` is given as pre-issuer (`preIdx_`, read off the call; −1 = nil).  The proofs go
+through the reference copies `Spec.*` (`CTV/Model/CtWrappersSpec.lean`, `Gen.X_eq_spec`), so they do not depend on how the Go
+source spells the same decisions.  The theorems say the hand models (`CtWire.serializeSCTSignatureInput`, …, `CtWire.leafFromChain`)
 decide exactly as those bodies do on the facts the models compute.  (What is marshalled and from which fields is
 `wrappers_as_modelled`; what the marshalled bytes are is `sctSigInput_spec` etc.)
 -/
@@ -39,12 +41,13 @@ theorem sctSigInput_tie (i : SctIn) (hp : i.entryType = 1 → i.precert.isSome) 
     code (serializeSCTSignatureInput i) =
       Gen.serializeSCTSignatureInput i.version i.entryType (failed (enc tCertificateTimestamp (sctInputVal i))) := by
   obtain ⟨c1, c2, c3, c4, _⟩ := C04.consts
+  rw [Gen.serializeSCTSignatureInput_eq_spec]
   by_cases hv : i.version = 0
   · by_cases h0 : i.entryType = 0
     · have e : sctInputVal i = .struct [.num i.version, .num 0, .num i.timestamp, .num i.entryType,
           optVal (i.x509.map asn1CertVal), .absent, .absent, .bytes i.extensions] := by simp [sctInputVal, h0]
       rw [e]
-      simp only [serializeSCTSignatureInput, Gen.serializeSCTSignatureInput, c1, c2, c3, c4, hv, h0, Int.natCast_zero, if_true,
+      simp only [serializeSCTSignatureInput, Spec.serializeSCTSignatureInput, c1, c2, c3, c4, hv, h0, Int.natCast_zero, if_true,
         decide_true, Int.toNat_zero, List.cons_append, List.nil_append]
       cases enc tCertificateTimestamp _ <;> simp [code, failed]
     · by_cases h1 : i.entryType = 1
@@ -52,15 +55,15 @@ theorem sctSigInput_tie (i : SctIn) (hp : i.entryType = 1 → i.precert.isSome) 
         have e : sctInputVal i = .struct [.num i.version, .num 0, .num i.timestamp, .num i.entryType,
             .absent, preCertVal p, .absent, .bytes i.extensions] := by simp [sctInputVal, h1, hpp, optVal]
         rw [e]
-        simp only [serializeSCTSignatureInput, Gen.serializeSCTSignatureInput, c1, c2, c3, c4, hv, h1, hpp, Int.natCast_zero, Int.natCast_one,
+        simp only [serializeSCTSignatureInput, Spec.serializeSCTSignatureInput, c1, c2, c3, c4, hv, h1, hpp, Int.natCast_zero, Int.natCast_one,
           if_true, decide_true, Int.toNat_zero, List.cons_append, List.nil_append, show ¬ ((1 : Int) = 0) by decide, if_false,
           show decide ((1 : Int) = 0) = false by decide, Bool.false_eq_true]
         cases enc tCertificateTimestamp _ <;> simp [code, failed]
       · have a0 : ¬ ((i.entryType : Int) = 0) := by omega
         have a1 : ¬ ((i.entryType : Int) = 1) := by omega
-        simp [serializeSCTSignatureInput, Gen.serializeSCTSignatureInput, c1, c2, c3, hv, h0, h1, a0, a1, code]
+        simp [serializeSCTSignatureInput, Spec.serializeSCTSignatureInput, c1, c2, c3, hv, h0, h1, a0, a1, code]
   · have : ¬ ((i.version : Int) = 0) := by omega
-    simp [serializeSCTSignatureInput, Gen.serializeSCTSignatureInput, c1, hv, this, code]
+    simp [serializeSCTSignatureInput, Spec.serializeSCTSignatureInput, c1, hv, this, code]
 
 /-- `SerializeSTHSignatureInput` (the root hash is a `[32]byte` in Go, so its length test never fires) -/
 theorem sthSigInput_tie (s : SthIn) :
@@ -68,19 +71,21 @@ theorem sthSigInput_tie (s : SthIn) :
       Gen.serializeSTHSignatureInput s.version false
         (failed (enc tTreeHeadSignature (.struct [.num s.version, .num 1, .num s.timestamp, .num s.treeSize, .bytes s.rootHash]))) := by
   obtain ⟨c1, _, _, _, c5, _⟩ := C04.consts
+  rw [Gen.serializeSTHSignatureInput_eq_spec]
   by_cases hv : s.version = 0
-  · simp only [serializeSTHSignatureInput, Gen.serializeSTHSignatureInput, c1, c5, hv, Int.natCast_zero, if_true, decide_true,
+  · simp only [serializeSTHSignatureInput, Spec.serializeSTHSignatureInput, c1, c5, hv, Int.natCast_zero, if_true, decide_true,
       Bool.false_eq_true, if_false, show (1 : Int).toNat = 1 by decide]
     cases enc tTreeHeadSignature _ <;> simp [code, failed]
   · have : ¬ ((s.version : Int) = 0) := by omega
-    simp [serializeSTHSignatureInput, Gen.serializeSTHSignatureInput, c1, hv, this, code]
+    simp [serializeSTHSignatureInput, Spec.serializeSTHSignatureInput, c1, hv, this, code]
 
 theorem leafHash_tie (leaf : Val) : code (leafHashInput leaf) = Gen.leafHashForLeaf (failed (enc tMerkleTreeLeaf leaf)) := by
-  unfold leafHashInput Gen.leafHashForLeaf
+  rw [Gen.leafHashForLeaf_eq_spec]
+  unfold leafHashInput Spec.leafHashForLeaf
   cases enc tMerkleTreeLeaf leaf <;> simp [code, failed]
 
 theorem isPreIssuer_tie (c : ChainCert) : c.ctEku = Gen.isPreIssuer c.ctEku := by
-  unfold Gen.isPreIssuer; cases c.ctEku <;> rfl
+  rw [Gen.isPreIssuer_eq_spec]; unfold Spec.isPreIssuer; cases c.ctEku <;> rfl
 
 /-- the facts `MerkleTreeLeafFromChain` tests, as the model computes them -/
 def issuerEku (chain : List ChainCert) : Bool := ((chain[1]?).map (·.ctEku)).getD false
@@ -96,7 +101,8 @@ theorem leafFromChain_tie (H : Bytes → Bytes) (build : Bytes → Option ChainC
       let k := Gen.merkleTreeLeafFromChain chain.length etype (issuerEku chain) (buildFails build chain)
       (k.1, k.2.1) := by
   obtain ⟨_, c2, c3, _⟩ := C04.consts
-  unfold leafFromChain Gen.merkleTreeLeafFromChain issuerEku buildFails
+  rw [Gen.merkleTreeLeafFromChain_eq_spec]
+  unfold leafFromChain Spec.merkleTreeLeafFromChain issuerEku buildFails
   simp only [c2, c3]
   match chain with
   | [] => simp [codeO]
@@ -132,18 +138,22 @@ theorem leafFromChain_tie (H : Bytes → Bytes) (build : Bytes → Option ChainC
         have a1 : ¬ ((etype : Int) = 1) := by omega
         simp [h0, h1, a0, a1, codeO, l0]
 
+/-- the chain certificate an index of the regenerated body stands for (−1 = nil) -/
+def certAt (chain : List ChainCert) (k : Int) : Option ChainCert := if k < 0 then none else chain[k.toNat]?
+
 /-- **Which certificate gives `issuer_key_hash`**: for a precert entry the hashed key is that of `chain[issuerIdx_]`, and `BuildPrecertTBS`
-gets `chain[1]` as pre-issuer exactly when `pre_` — with `issuerIdx_`, `pre_` as the regenerated body leaves them (2 / true behind a
-Precertificate Signing Certificate, 1 / false otherwise). -/
+gets `chain[preIdx_]` as pre-issuer (nil for −1) — with `issuerIdx_`, `preIdx_` as the regenerated body leaves them (2 / 1 behind a
+Precertificate Signing Certificate, 1 / −1 otherwise). -/
 theorem leafFromChain_issuer (H : Bytes → Bytes) (build : Bytes → Option ChainCert → Option Bytes) (chain : List ChainCert) (ts : Nat)
     (l : Rfc.MerkleTreeLeaf) (h : leafFromChain H build chain 1 ts = some l) :
     let k := Gen.merkleTreeLeafFromChain chain.length 1 (issuerEku chain) (buildFails build chain)
     ∃ cert c tbs, chain[0]? = some cert ∧ chain[k.2.2.1.toNat]? = some c ∧
-      build cert.tbs (if k.2.2.2 then chain[1]? else none) = some tbs ∧
+      build cert.tbs (certAt chain k.2.2.2) = some tbs ∧
       l = ⟨0, ⟨ts, .precert ⟨H c.spki, tbs⟩, []⟩⟩ := by
   obtain ⟨_, c2, c3, _⟩ := C04.consts
   unfold leafFromChain at h
-  unfold Gen.merkleTreeLeafFromChain issuerEku buildFails
+  rw [Gen.merkleTreeLeafFromChain_eq_spec]
+  unfold Spec.merkleTreeLeafFromChain issuerEku buildFails certAt
   simp only [c2, c3]
   match chain, h with
   | [], h => simp at h
@@ -176,9 +186,14 @@ theorem leafFromChain_issuer (H : Bytes → Bytes) (build : Bytes → Option Cha
         refine ⟨cert, final, tbs, by simp, ?_, ?_, h.symm⟩ <;> simp [he, hb, l0, l2, l3]
 
 /-- the pre-issuer chain of seeds C04-w3-2 / C05-w3-2: [precert, Precertificate Signing Certificate, CA] → the CA's key is hashed -/
-example : (Gen.merkleTreeLeafFromChain 3 1 true false) = (1, false, 2, true) ∧ (Gen.merkleTreeLeafFromChain 2 1 true false) = (0, true, 1, true)
-    ∧ (Gen.merkleTreeLeafFromChain 2 1 false false) = (1, false, 1, false) ∧ (Gen.merkleTreeLeafFromChain 0 0 false false).2.1 = true := by decide
+example : (Gen.merkleTreeLeafFromChain 3 1 true false) = (1, false, 2, 1) ∧ (Gen.merkleTreeLeafFromChain 2 1 true false) = (0, true, -1, -1)
+    ∧ (Gen.merkleTreeLeafFromChain 2 1 false false) = (1, false, 1, -1) ∧ (Gen.merkleTreeLeafFromChain 0 0 false false).2.1 = true
+    ∧ (Gen.merkleTreeLeafFromChain 3 1 true true) = (0, true, -1, 1) := by
+  rw [Gen.merkleTreeLeafFromChain_eq_spec]; decide
 example : Gen.serializeSCTSignatureInput 0 1 false = (1, false) ∧ Gen.serializeSCTSignatureInput 1 0 false = (0, true)
-    ∧ Gen.serializeSCTSignatureInput 0 2 false = (0, true) := by decide
+    ∧ Gen.serializeSCTSignatureInput 0 2 false = (0, true) := by
+  rw [Gen.serializeSCTSignatureInput_eq_spec]; decide
+example : Gen.leafHashForLeaf true = (0, true) ∧ Gen.leafHashForLeaf false = (1, false) ∧ Gen.isPreIssuer true = true := by
+  rw [Gen.leafHashForLeaf_eq_spec, Gen.isPreIssuer_eq_spec]; decide
 
 end C04Tie
